@@ -33,34 +33,34 @@ type Violation struct {
 
 // Result is what one leg/shard writes for the driver.
 type Result struct {
-	Leg        string                    `json:"leg"`
-	Shard      int                       `json:"shard"`
-	NShards    int                       `json:"nshards"`
-	Tier       string                    `json:"tier"`
-	Seed       int64                     `json:"seed"`
-	Props      map[string]*PropCoverage  `json:"props"`
-	Violations []Violation               `json:"violations"`
-	EngineErrs []string                  `json:"engine_errors"`
-	WallS      float64                   `json:"wall_s"`
-	Complete   bool                      `json:"complete"`
+	Leg        string                   `json:"leg"`
+	Shard      int                      `json:"shard"`
+	NShards    int                      `json:"nshards"`
+	Tier       string                   `json:"tier"`
+	Seed       int64                    `json:"seed"`
+	Props      map[string]*PropCoverage `json:"props"`
+	Violations []Violation              `json:"violations"`
+	EngineErrs []string                 `json:"engine_errors"`
+	WallS      float64                  `json:"wall_s"`
+	Complete   bool                     `json:"complete"`
 }
 
 // PropCoverage holds the measured counts for one property inside one leg.
 type PropCoverage struct {
-	Level         string         `json:"level"`
-	Evaluations   int64          `json:"evaluations"`
-	Nontrivial    int64          `json:"distinct_nontrivial"`
-	States        int64          `json:"states"`
-	Transitions   int64          `json:"transitions"`
-	TracesImpl    int64          `json:"traces_validated_against_impl"`
-	Rule          string         `json:"rule"`
-	Samples       []any          `json:"samples"`
-	Exhaustive    bool           `json:"exhaustive"`
-	Caps          []string       `json:"caps_hit"`
-	Outcomes      map[string]int64 `json:"outcomes"`
-	Extra         map[string]any `json:"extra"`
-	Assumptions   []string       `json:"assumptions"`
-	nontrivKeys   map[uint64]struct{}
+	Level       string           `json:"level"`
+	Evaluations int64            `json:"evaluations"`
+	Nontrivial  int64            `json:"distinct_nontrivial"`
+	States      int64            `json:"states"`
+	Transitions int64            `json:"transitions"`
+	TracesImpl  int64            `json:"traces_validated_against_impl"`
+	Rule        string           `json:"rule"`
+	Samples     []any            `json:"samples"`
+	Exhaustive  bool             `json:"exhaustive"`
+	Caps        []string         `json:"caps_hit"`
+	Outcomes    map[string]int64 `json:"outcomes"`
+	Extra       map[string]any   `json:"extra"`
+	Assumptions []string         `json:"assumptions"`
+	nontrivKeys map[uint64]struct{}
 }
 
 // Run is the per-test handle.
@@ -112,10 +112,10 @@ func Start(t *testing.T, leg string, level string, props ...string) *Run {
 	return r
 }
 
-func (r *Run) Tier() string     { return r.tier }
-func (r *Run) Quick() bool      { return r.tier != "thorough" }
-func (r *Run) Thorough() bool   { return r.tier == "thorough" }
-func (r *Run) Seed() int64      { return r.seed }
+func (r *Run) Tier() string      { return r.tier }
+func (r *Run) Quick() bool       { return r.tier != "thorough" }
+func (r *Run) Thorough() bool    { return r.tier == "thorough" }
+func (r *Run) Seed() int64       { return r.seed }
 func (r *Run) Shard() (int, int) { return r.shard, r.nshards }
 
 // ReplayFile returns the path of a replay artefact to re-run, or "".
@@ -181,9 +181,13 @@ func (r *Run) Outcome(prop string, o string) {
 }
 
 // States/Transitions/Traces add model-checking counters.
-func (r *Run) States(prop string, n int64)      { r.mu.Lock(); r.p(prop).States += n; r.mu.Unlock() }
-func (r *Run) Transitions(prop string, n int64) { r.mu.Lock(); r.p(prop).Transitions += n; r.mu.Unlock() }
-func (r *Run) Traces(prop string, n int64)      { r.mu.Lock(); r.p(prop).TracesImpl += n; r.mu.Unlock() }
+func (r *Run) States(prop string, n int64) { r.mu.Lock(); r.p(prop).States += n; r.mu.Unlock() }
+func (r *Run) Transitions(prop string, n int64) {
+	r.mu.Lock()
+	r.p(prop).Transitions += n
+	r.mu.Unlock()
+}
+func (r *Run) Traces(prop string, n int64) { r.mu.Lock(); r.p(prop).TracesImpl += n; r.mu.Unlock() }
 
 // Rule sets the enumeration / non-triviality rule text.
 func (r *Run) Rule(prop string, rule string) { r.mu.Lock(); r.p(prop).Rule = rule; r.mu.Unlock() }
